@@ -293,7 +293,8 @@ def run(ctx):
             ctx.nontrivial(json.dumps([arr.dtype.name, C, [X, Y, Z], block, sorted(f["widths"])]))
         st, clause, _ = verdicts[case["tid"]]
         if clause.startswith("machinery:"):
-            raise tlc.MachineryError("Trace_CSeg reported %s for %s" % (clause, detail_of(arr, block, case, origin)))
+            ctx.undecided("Trace_CSeg reported %s for %s" % (clause, detail_of(arr, block, case, origin)))
+            continue
         if st != "ok":
             ctx.violation(clause, sig_of(arr, block, case, clause), detail_of(arr, block, case, origin))
     ctx.notes["blocks_per_min_bit_width"] = {str(k): v for k, v in sorted(hist.items())}
